@@ -93,6 +93,10 @@ Theorem C03_nocase_negated_class_pinned_refuted :
   /\ model_scan (d_nc (Some h_nc)) [97;98;99] 1000 = [(2, 1)].
 Proof. exact nocase_negated_class_pinned_refuted. Qed.
 
+Theorem C03_empty_class_pinned_refuted :
+  starts_spec (flags_of md_re) [97;98] h_ec = [] /\ model_scan d_ec [97;98] 1000 = [(0, 2)].
+Proof. exact empty_class_pinned_refuted. Qed.
+
 (* non-vacuity *)
 Example C03_widen_example :
   has_word_boundary h_raw = false
@@ -121,3 +125,4 @@ Print Assumptions C03_wide_validator_rev.
 Print Assumptions C03_start_position_refuted.
 Print Assumptions C03_fullword_single_length_refuted.
 Print Assumptions C03_nocase_negated_class_pinned_refuted.
+Print Assumptions C03_empty_class_pinned_refuted.
